@@ -218,6 +218,17 @@ func execA(c caseA) (st stats, err error) {
 			return push(k, entry{ID: r.Header.Get("x-amz-version-id"), Body: data, Meta: meta}, where)
 		case "copy":
 			src := stacks[o.Src%len(keyNames)]
+			if len(src) > 0 && src[0].Marker && o.Src%len(keyNames) != k {
+				// the source reads as missing: there is nothing to copy (what the marker hides stays hidden)
+				r, err := cl.Call("PUT", path(k), nil, []s3c.KV{{K: "x-amz-copy-source", V: b + "/" + keyNames[o.Src%len(keyNames)]}}, nil)
+				if err != nil {
+					return fmt.Errorf("SETUP: transport: %v", err)
+				}
+				if r.OK() && !strings.Contains(string(r.Body), "<Error>") {
+					return fmt.Errorf("%s: CopyObject from %q, whose current version is a delete marker (GET answers 404), answers %d and creates an object", where, keyNames[o.Src%len(keyNames)], r.Status)
+				}
+				return nil
+			}
 			if len(src) == 0 || src[0].Marker || o.Src%len(keyNames) == k {
 				return nil
 			}
@@ -237,7 +248,17 @@ func execA(c caseA) (st stats, err error) {
 				return nil
 			}
 			e := src[((o.Ver%len(src))+len(src))%len(src)]
-			if e.Marker || si == k {
+			if si == k {
+				return nil
+			}
+			if e.Marker {
+				r, err := cl.Call("PUT", path(k), nil, []s3c.KV{{K: "x-amz-copy-source", V: b + "/" + keyNames[si] + "?versionId=" + e.ID}}, nil)
+				if err != nil {
+					return fmt.Errorf("SETUP: transport: %v", err)
+				}
+				if r.OK() && !strings.Contains(string(r.Body), "<Error>") {
+					return fmt.Errorf("%s: CopyObject from the delete marker %s of %q answers %d and creates an object", where, e.ID, keyNames[si], r.Status)
+				}
 				return nil
 			}
 			r, err := cl.Call("PUT", path(k), nil, []s3c.KV{{K: "x-amz-copy-source", V: b + "/" + keyNames[si] + "?versionId=" + e.ID}}, nil)
